@@ -120,6 +120,13 @@ func (eng *Engine) verifyFunc(fn *ssa.Function, fc *FuncContract, props []string
 	}
 	st := e.entryState(scen)
 	e.tmInitGhosts(st)
+	if fc != nil {
+		for _, cl := range fc.Lists["count_calls"] {
+			for _, n := range strings.Fields(cl.Expr) {
+				e.ghostGet(st, n+"_calls", tInt, e.sc.idxLit(0))
+			}
+		}
+	}
 	e.entry = st.clone()
 	entry := e.entry
 	// requires
@@ -458,7 +465,7 @@ func (e *Exec) frameCheck(st, entry *State, fc *FuncContract, xi int) {
 	}
 	topE := e.top(entry)
 	for _, k := range sortedKeys(st.mem) {
-		if strings.HasPrefix(k, "L|") || strings.HasPrefix(k, "IT|") || k == "top" || strings.HasPrefix(k, "stale:") || strings.HasPrefix(k, "ghost|") || k == "*all" {
+		if strings.HasPrefix(k, "L|") || strings.HasPrefix(k, "IT|") || k == "top" || strings.HasPrefix(k, "stale:") || strings.HasPrefix(k, "ghost|") || strings.HasPrefix(k, "tb|") || k == "*all" {
 			continue
 		}
 		cur := st.mem[k]
@@ -540,6 +547,17 @@ func (e *Exec) callByContract(st *State, c *FuncContract, callee *ssa.Function, 
 		pkg = cc.Method.Pkg()
 		for i := 0; i < sig.Results().Len(); i++ {
 			resNames = append(resNames, sig.Results().At(i).Name())
+		}
+	}
+	// call counters of the callee (`count_calls`): in its contract <name>_calls is the
+	// number of calls made during this invocation; the caller's own counter advances by it
+	deltas := map[string]string{}
+	for _, cl := range c.Lists["count_calls"] {
+		for _, n := range strings.Fields(cl.Expr) {
+			d := e.sc.fresh("calls."+n, e.sc.idx())
+			e.sc.assert(e.le(e.sc.idxLit(0), d))
+			deltas[n] = d
+			vars[n+"_calls"] = Val{T: tInt, S: d}
 		}
 	}
 	mk := func(s, old *State) *specCtx {
@@ -641,6 +659,12 @@ func (e *Exec) callByContract(st *State, c *FuncContract, callee *ssa.Function, 
 		}
 		e.assume(st, t)
 	}
+	for n, d := range deltas {
+		if _, counted := e.ghostTypes[n+"_calls"]; counted && e.curFn == e.fn {
+			cur := e.ghostGet(st, n+"_calls", tInt, e.sc.idxLit(0))
+			e.ghostSet(st, n+"_calls", tInt, e.add(cur.S, d))
+		}
+	}
 	e.setResult(st, dst, res)
 	if maySoft {
 		es := st.clone()
@@ -654,7 +678,10 @@ func (e *Exec) callByContract(st *State, c *FuncContract, callee *ssa.Function, 
 // ---------- loops ----------
 
 // loopVars resolves the source-level names usable in the invariants of loop l.
-func (e *Exec) loopVars(fn *ssa.Function, l *loopInfo, st *State) map[string]Val {
+func (e *Exec) loopVars(fn *ssa.Function, l *loopInfo, st *State, at *ssa.BasicBlock) map[string]Val {
+	if at == nil {
+		at = l.header
+	}
 	vars := map[string]Val{}
 	// any named value whose definition dominates the header; among several
 	// candidates for one name the most recent one (deepest in the dominator
@@ -687,14 +714,14 @@ func (e *Exec) loopVars(fn *ssa.Function, l *loopInfo, st *State) map[string]Val
 			if !ok {
 				continue
 			}
-			// the reference itself must be located before the loop (its block dominates the header)
-			if b != l.header && !b.Dominates(l.header) {
+			// the reference itself must be located before the evaluation point
+			if b != at && !b.Dominates(at) {
 				continue
 			}
-			if b == l.header {
+			if b == l.header && at == l.header {
 				continue
 			}
-			if db := valueBlock(d.X); db != nil && db != l.header && !db.Dominates(l.header) {
+			if db := valueBlock(d.X); db != nil && db != at && !db.Dominates(at) {
 				continue
 			}
 			if _, isPhi := d.X.(*ssa.Phi); isPhi && valueBlock(d.X) == l.header {
@@ -711,7 +738,7 @@ func (e *Exec) loopVars(fn *ssa.Function, l *loopInfo, st *State) map[string]Val
 		vars[n] = c.v
 	}
 	for _, b := range fn.Blocks {
-		if b != l.header && !b.Dominates(l.header) {
+		if b != at && !b.Dominates(at) {
 			continue
 		}
 		for _, ins := range b.Instrs {
@@ -780,7 +807,7 @@ func (e *Exec) invCtx(fn *ssa.Function, l *loopInfo, st *State) *specCtx {
 			c.pkg = fn.Pkg.Pkg
 		}
 	}
-	for k, v := range e.loopVars(fn, l, st) {
+	for k, v := range e.loopVars(fn, l, st, nil) {
 		c.vars[k] = v
 	}
 	return c
@@ -845,6 +872,13 @@ func (e *Exec) cutLoopHead(fn *ssa.Function, fc *FuncContract, l *loopInfo, st *
 	keys, all := e.loopModified(fn, l)
 	for k, srt := range keys {
 		e.memGet(st, k, srt)
+	}
+	if fc != nil && len(fc.Lists["count_calls"]) > 0 {
+		for name, t := range e.ghostTypes {
+			if strings.HasSuffix(name, "_calls") {
+				keys["ghost|"+name] = e.sc.sortOf(t)
+			}
+		}
 	}
 	if e.tm() != nil && e.loopHasAtomics(l) {
 		for name, t := range e.ghostTypes {
@@ -912,6 +946,14 @@ func (e *Exec) cutLoopHead(fn *ssa.Function, fc *FuncContract, l *loopInfo, st *
 		}
 	}
 	e.havocKeysSorted(st, keys, all)
+	defer func() {
+		if e.curFn == e.fn {
+			if e.loopHeadSt == nil {
+				e.loopHeadSt = map[int]*State{}
+			}
+			e.loopHeadSt[l.ordinal] = st.clone()
+		}
+	}()
 	// 3. assume the invariant
 	if lc != nil {
 		for _, cl := range lc.Invariants {
@@ -976,6 +1018,23 @@ func (e *Exec) checkLoopBack(fn *ssa.Function, fc *FuncContract, l *loopInfo, st
 			continue
 		}
 		e.checkPost(st, "inv-step", fmt.Sprintf("loop%d.%d", l.ordinal, i), t, cl.Props, pos)
+	}
+	if head := e.loopHeadSt[l.ordinal]; head != nil && e.curFn == e.fn {
+		for i, cl := range lc.Steps {
+			c := e.invCtx(fn, l, st)
+			for k, v := range e.loopVars(fn, l, st, e.backFrom) {
+				c.vars[k] = v
+			}
+			c.prevSt = head
+			c.prevVar = e.loopVars(fn, l, head, nil)
+			c.where = fmt.Sprintf("%s:%d", cl.File, cl.Line)
+			t, err := c.evalBool(cl.Expr)
+			if err != nil {
+				e.note("CONTRACT-ERROR step: %v", err)
+				continue
+			}
+			e.checkPost(st, "loop-step", fmt.Sprintf("loop%d.%d", l.ordinal, i), t, cl.Props, pos)
+		}
 	}
 	if lc.Decreases != "" {
 		c := e.invCtx(fn, l, st)
